@@ -717,6 +717,11 @@ def step (_ : Unit) (ws : List String) : Unit × String :=
     match parseBytes body with
     | some b => s!"ok prefix={b.length % 4294967296} block=true dec=true"
     | none => "bad-op"
+  | ["midrt", codec, _, n] =>
+    -- as `lz4rt` / `hyp`, for a body given by its length only (C18_lz4_delivered; Codec.RoundTrips sampled)
+    match n.toNat? with
+    | some n => if codec == "lz4" then s!"ok prefix={n % 4294967296} block=true dec=true" else "roundtrip"
+    | none => "bad-op"
   | ["lz4dst", n] =>
     match n.toNat? with
     | some n => s!"dst={lz4DstLen n}"
